@@ -6,7 +6,9 @@
      returns (`_processor.register(self)` is its last action) until `release_stream` at context exit.
      A call that is still INSIDE protocol.Stream.send_request (waiting for `write_ready` or for
      `stream_close_waiter`) is not registered.
-   * RST_STREAM(sid)  -> process_stream_reset -> `__terminated__` of that registered stream only.
+   * RST_STREAM(sid), or a stream-level protocol violation by the peer that makes h2 reset the stream
+     itself (StreamReset with remote_reset = False) -> process_stream_reset -> `__terminated__` of that
+     registered stream only (both kinds).
      GOAWAY -> process_connection_terminated -> close;  h2 ProtocolError in data_received -> close;
      connection_lost -> close;  Channel.close -> processor.close:
      `EventsProcessor.close` calls `__terminated__` (= wrapper.cancel(StreamTerminatedError)) of
@@ -66,7 +68,10 @@ Inductive cev := CGoaway | CProtoErr | CLost | CChanClose.
 Inductive slabel :=
 | LNewCall (deadline : bool)
 | LK (c : nat) (l : klabel)    (* application / scheduler / primitive completion on call c *)
-| LRst (c : nat)               (* StreamReset event for the stream of call c *)
+| LRst (c : nat) (remote : bool)  (* StreamReset event for the stream of call c: RST_STREAM from the peer
+                                     (remote) or h2 resetting the stream ITSELF after a stream-level
+                                     protocol violation by the peer (not remote); process_stream_reset
+                                     terminates the registered stream in both cases *)
 | LConn (e : cev)              (* -> EventsProcessor.close *)
 | LRelease (c : nat)           (* release_stream at the end of __aexit__ *)
 | LDeadline (c : nat).         (* the DeadlineWrapper timer fires *)
@@ -113,7 +118,7 @@ Definition sstep (s : sys) (l : slabel) : sys :=
   | LNewCall dl => s ++ [new_call dl]
   | LK _ (WCancel _) => s           (* only the protocol and the deadline timer cancel a wrapper *)
   | LK c kl => upd c (fun cl => with_k cl (kstep (ck cl) kl)) s
-  | LRst c => upd c (fun cl => if registered cl then terminate cl else cl) s
+  | LRst c _ => upd c (fun cl => if registered cl then terminate cl else cl) s
   | LConn _ => map conn_event s
   | LRelease c =>
       upd c (fun cl => {| ck := ck cl; released := true; has_deadline := has_deadline cl;
@@ -272,7 +277,8 @@ Fixpoint trace (fuel : nat) (tbl : optable) (cx : tcx) (d : nat) (p : program) (
 (* ---- the scenario interpreter: one cell of the correspondence matrix ---- *)
 Inductive cop := KSr | KSm | KEn | KRi | KRm | KRt | KCa | KAx.
 Inductive creason := RPaused | RWindow | RSlot | RSilent.
-Inductive cevent := VRst | VGoaway | VGarbage | VLost | VClose.
+Inductive cevent := VRst | VGoaway | VGarbage | VLost | VClose
+                  | VSerr.   (* stream-level protocol violation by the peer: h2 resets the stream locally *)
 Inductive cstatus := StNone | StH503 | StTonly (k : Z) | StTrailers (k : Z).
 Inductive cvariant := VaBase | VaImplicit | VaAfterHeaders.
 
@@ -324,7 +330,7 @@ Definition blocks (c : cell) (s : site) : bool :=
   | SPrim (PSendData _) => is_reason (c_reason c) RPaused || is_reason (c_reason c) RWindow
   | SPrim PEnd | SPrim PReset => is_reason (c_reason c) RPaused
   | SPrim PRecvHeaders => negb (hdr_arrived c)
-  | SPrim PRecvTrailers => negb (trl_arrived c)
+  | SPrim PRecvTrailers => negb (trl_arrived c || eof_arrived c)   (* __ended__ sets trailers_received *)
   | SPrim PRecvMessage => negb (eof_arrived c)
   | SPrim PConnect | SPrim (PSendHeaders _) | SHook _ => false
   end.
@@ -436,14 +442,14 @@ Definition no_prediction (su : setup) : prediction :=
   {| p_setup := su; p_blocked := None; p_registered := false; p_werr := OOk; p_op := OPending;
      p_ctx := OPending; p_late := OPending; p_inpaths := true; p_missed := false |}.
 
-Definition conn_level (e : cevent) : bool := match e with VRst => false | _ => true end.
+Definition conn_level (e : cevent) : bool := match e with VRst | VSerr => false | _ => true end.
 
 Definition fire (c : cell) (fl : flags) (s : sys) : sys + setup :=
   match c_event c with
-  | VRst =>
+  | VRst | VSerr =>
       if negb (registered (one_call s)) then inr SNoStreamForRst
       else if get_flag fl F_end_done && eof_arrived c then inr SRstInfeasible
-      else inl (sstep s (LRst 0))
+      else inl (sstep s (LRst 0 (match c_event c with VRst => true | _ => false end)))
   | VGoaway => inl (sstep s (LConn CGoaway))
   | VGarbage => inl (sstep s (LConn CProtoErr))
   | VLost => inl (sstep s (LConn CLost))
